@@ -28,8 +28,9 @@ LEVEL_NOTE = ("Trusted: Lean kernel (axioms propext, Classical.choice, Quot.soun
               "beyond the explored sizes (the loops are uniform in k); qiskit matrices of u, cx, ccx, C3X, C4X, mcx(noancilla) "
               "(validated numerically each run); float pi/4 vs the exact angle.  action_only=True is modelled and tied but is "
               "outside the property (it leaves the ancillas dirty on purpose).")
-LEAN_TARGETS = ["QclibModel.Props.C05"]  # TEMP
-THEOREMS = []  # TEMP
+LEAN_TARGETS = ["QclibModel.Props.C05", "QclibModel.Props.C05Majority"]
+THEOREMS = ["Qclib.C05_toffoli_relphase", "Qclib.C05_halves", "Qclib.C05_vchain", "Qclib.C05_vchain_relphase",
+            "Qclib.C05_linear", "Qclib.C05_ctrl_state", "Qclib.C05_majority", "Qclib.C05_majority_sizes"]
 TRUSTED = [
     "qiskit UGate(theta,0,0), CXGate, CCXGate, C3XGate, C4XGate matrices and the mcx(mode='noancilla') dispatch equal "
     "matU / applyMcu of Sem/Denote.lean (validated numerically each run)",
@@ -62,15 +63,26 @@ def build_linear(k, cs, ao):
     return LinearMcx(k, cs, ao).definition
 
 
+def expected_reject(p):
+    """ctrl_state strings with a '0' at a reversed position >= k make apply_ctrl_state index past the register."""
+    cs = p.get("cs")
+    return cs is not None and any(ch == "0" and i >= p["k"] for i, ch in enumerate(cs[::-1]))
+
+
 def gate_list(kind, p):
-    """Flattened gate list of the real definition, or None when qclib raises IndexError (bad ctrl_state)."""
+    """(circuit, flattened gate list, error).  error = None | 'reject' (documented IndexError on an over-long ctrl_state) |
+    repr of an exception qclib raised on a valid input."""
     from flatten import flatten
     try:
         circ = build_vchain(p["k"], p["t"], p.get("cs"), p["rp"], p["ao"]) if kind == "vchain" \
             else build_linear(p["k"], p.get("cs"), p["ao"])
-    except IndexError:
-        return None, None
-    return circ, flatten(circ)
+        return circ, flatten(circ), None
+    except IndexError as e:
+        if expected_reject(p):
+            return None, None, "reject"
+        return None, None, f"{type(e).__name__}: {e}"
+    except Exception as e:  # qclib / qiskit raised while building the definition of a valid input
+        return None, None, f"{type(e).__name__}: {e}"
 
 
 def layout(kind, p):
@@ -168,11 +180,11 @@ def eval_dense(args):
     """Full Operator of the real definition vs reference permutation."""
     kind, p = args
     from qiskit.quantum_info import Operator
-    circ, gates = gate_list(kind, p)
+    circ, gates, gerr = gate_list(kind, p)
     key = case_key(kind, p, "operator")
     rep = {"kind": kind, "params": p, "method": "operator"}
     if circ is None:
-        return key, "fail", "qclib raised IndexError on a ctrl_state of length k", rep, None
+        return key, "fail", "construction failed on a valid input: " + str(gerr), rep, None
     ctrl, anc, tg = layout(kind, p)
     n = circ.num_qubits
     if n < max(ctrl + anc + tg) + 1:
@@ -204,11 +216,11 @@ def eval_sv(args):
     """Random dense states (superposed controls, ancillas, targets) through the real definition."""
     kind, p, seed = args
     from qiskit.quantum_info import Statevector
-    circ, gates = gate_list(kind, p)
+    circ, gates, gerr = gate_list(kind, p)
     key = case_key(kind, p, "statevector", str(seed))
     rep = {"kind": kind, "params": p, "method": "statevector", "seed": seed}
     if circ is None:
-        return key, "fail", "qclib raised IndexError on a ctrl_state of length k", rep, None
+        return key, "fail", "construction failed on a valid input: " + str(gerr), rep, None
     ctrl, anc, tg = layout(kind, p)
     n = circ.num_qubits
     rng = np.random.default_rng(seed)
@@ -254,12 +266,12 @@ def make_sparse_input(rng, kind, p, mismatches, n_super):
 
 def eval_sparse(args):
     kind, p, idx, amp, desc = args
-    circ, gates = gate_list(kind, p)
+    circ, gates, gerr = gate_list(kind, p)
     key = case_key(kind, p, "sparse", f"{desc['base']:x}-{len(idx)}")
     rep = {"kind": kind, "params": p, "method": "sparse", "idx": [int(i) for i in idx],
            "amp": [[complex(a).real, complex(a).imag] for a in amp], "desc": desc}
     if circ is None:
-        return key, "fail", "qclib raised IndexError on a ctrl_state of length k", rep, None
+        return key, "fail", "construction failed on a valid input: " + str(gerr), rep, None
     ctrl, anc, tg = layout(kind, p)
     bits = pattern_bits(p["k"], p.get("cs"))
     oi, oa = sparse_apply(gates, idx, amp)
@@ -302,9 +314,14 @@ def run_jobs(ctx, jobs):
             if sample and sample.get("sign_err") is not None:
                 ctx.assumption_checks += 1
                 if sample["sign_err"] > TOL:
-                    ctx.fail("assumption:relphase-diagonal:" + key,
-                             f"real diagonal differs from the theorem's explicit signs by {sample['sign_err']:.3e}",
-                             rep, kind="assumption")
+                    # the property (unit-modulus diagonal) holds; what broke is the agreement of the code's
+                    # diagonal with the explicit +-1 formula of C05_vchain_relphase: an obligation, not a failing input
+                    msg = (f"{key}: the real diagonal differs from the theorem's explicit signs (relSign) by "
+                           f"{sample['sign_err']:.3e}")
+                    if hasattr(ctx, "obligation_broken"):
+                        ctx.obligation_broken("relphase diagonal of the code = relSign of C05_vchain_relphase", msg)
+                    else:
+                        ctx.notes.append("BROKEN: " + msg)
         else:
             ctx.fail(key, detail, rep)
 
@@ -323,7 +340,10 @@ def assumptions(ctx):
     def chk(name, ok, detail=""):
         ctx.assumption_checks += 1
         if not ok:
-            ctx.fail("assumption:" + name, detail or name, kind="assumption")
+            ctx.fail("assumption:" + name, detail or name,
+                     {"kind": "assumption", "method": "assumption", "params": {"name": name},
+                      "call": "qiskit gate matrices / Operator(qclib.gates.toffoli.Toffoli().definition) vs Sem/Denote.lean"},
+                     kind="assumption")
 
     for th in (math.pi / 4, -math.pi / 4, 0.3):
         c, s = math.cos(th / 2), math.sin(th / 2)
@@ -350,7 +370,10 @@ def assumptions(ctx):
         "Toffoli() is not c1 ? (c0 ? X : -Z) : I")
     # self-check of the sparse simulator against qiskit (harness sanity, not a property)
     from qiskit.quantum_info import Statevector
-    circ = build_vchain(4, 2, "0110", False, False)
+    try:
+        circ = build_vchain(4, 2, "0110", False, False)
+    except Exception:       # reported as a construction failure by the tie / oracle below
+        return
     gates = flatten(circ)
     n = circ.num_qubits
     rng = np.random.default_rng(5)
@@ -380,17 +403,23 @@ def patterns(ctx, k, full_upto, n_random):
 
 def tie_case(ctx, kind, p):
     from flatten import to_lines
-    circ, gates = gate_list(kind, p)
+    circ, gates, gerr = gate_list(kind, p)
     op = {"op": kind, "k": p["k"], "ao": p["ao"]}
     if kind == "vchain":
         op.update(t=p["t"], rp=p["rp"])
     if p.get("cs") is not None:
         op["cs"] = p["cs"]
+    if gerr is not None and gerr != "reject":
+        # "construction never fails": an exception on a valid input is a failing input of the property
+        ctx.fail(case_key(kind, p, "construct"), "qclib raised while building the definition: " + gerr,
+                 {"kind": kind, "params": p, "method": "construct"})
+        ctx.tie(op, ["EXCEPTION ; " + gerr.split(":")[0]])
+        return
     ctx.tie(op, ["REJECT"] if circ is None else to_lines(gates))
     ctx.count(f"tie:{kind}:" + ("reject" if circ is None else "k=%d" % p["k"]))
 
 
-def run(ctx, scale=0):
+def run(ctx, scale=0, with_majority=True):
     assumptions(ctx)
     quick = ctx.quick
     r = ctx.rng
@@ -431,7 +460,7 @@ def run(ctx, scale=0):
                 continue
             for rp in ((False, True) if t == 1 else (False,)):
                 if nq <= DENSE_OP_MAX:
-                    pats = patterns(ctx, k, 3 if quick else 5, 1 if quick else 3)
+                    pats = patterns(ctx, k, 4 if quick else 5, 1 if quick else 3)
                 else:
                     pats = patterns(ctx, k, 0, 0 if quick else 2)[1:]
                 for cs in pats:
@@ -442,7 +471,7 @@ def run(ctx, scale=0):
                         jobs.append(("statevector", ("vchain", p, r.getrandbits(31))))
     for k in range(1, 10):
         nq = k + 2
-        pats = patterns(ctx, k, 3 if quick else 4, 1 if quick else 3) if nq <= DENSE_OP_MAX else patterns(ctx, k, 0, 1)[1:]
+        pats = patterns(ctx, k, 5 if quick else 7, 1 if quick else 3) if nq <= DENSE_OP_MAX else patterns(ctx, k, 0, 1)[1:]
         for cs in pats:
             p = dict(k=k, cs=cs, ao=False)
             if nq <= DENSE_OP_MAX or (not quick and nq == 10 and cs == pats[-1]):
@@ -468,52 +497,63 @@ def run(ctx, scale=0):
                      "simulation of the real flattened gate list beyond (basis controls/targets, borrowed qubits basis or "
                      "|+>,|->,|+i>)" % (DENSE_OP_MAX, DENSE_SV_MAX))
     ctx.notes.append("action_only=True is tied (gate lists) but not evaluated by the oracle: it leaves the ancillas dirty on purpose")
-    if MAJ is not None:
+    if MAJ is not None and with_majority:
         MAJ.run(ctx)
 
 
 def search(ctx, hints):
-    """Failing-input search on the real code: the disagreeing ops first, then the oracle at larger sizes."""
-    jobs = []
-    for h in hints[:40]:
-        op = h["op"]
-        kind = op.get("op")
-        if kind not in ("vchain", "linear") or op.get("ao"):
-            continue
-        p = dict(k=op["k"], cs=op.get("cs"), ao=False)
-        if kind == "vchain":
-            p.update(t=op["t"], rp=op["rp"])
-            if p["rp"] and p["t"] != 1:
+    """Failing-input search on the real code: the disagreeing ops first, then the oracle at larger sizes.
+    Hints that are not MCX ops (majority) are handed to the majority module; with no hints at all (a red proof) both run."""
+    mine = [h for h in hints if h["op"].get("op") in ("vchain", "linear", "toffoli", "tmt")]
+    theirs = [h for h in hints if h not in mine]
+    if mine or not hints:
+        jobs = []
+        for h in mine[:40]:
+            op = h["op"]
+            kind = op.get("op")
+            if kind not in ("vchain", "linear") or op.get("ao"):
                 continue
-        if p["cs"] is not None and len(p["cs"]) != p["k"]:
-            continue
-        ctrl, anc, tg = layout(kind, p)
-        nq = len(ctrl) + len(anc) + len(tg)
-        if nq <= DENSE_OP_MAX + 1:
-            jobs.append(("operator", (kind, p)))
-        elif nq <= DENSE_SV_MAX:
-            jobs.append(("statevector", (kind, p, ctx.rng.getrandbits(31))))
-        else:
-            for mism, nsup in ((0, 0), (0, 3), (1, 2), (2, 1)):
-                idx, amp, desc = make_sparse_input(ctx.rng, kind, p, mism, nsup)
-                jobs.append(("sparse", (kind, p, idx, amp, desc)))
-    run_jobs(ctx, jobs)
-    if not ctx.failures:
-        run(ctx, scale=1)
-    elif MAJ is not None:
-        MAJ.search(ctx, hints)
-        return
-    if MAJ is not None and not ctx.failures:
-        MAJ.search(ctx, hints)
+            p = dict(k=op["k"], cs=op.get("cs"), ao=False)
+            if kind == "vchain":
+                p.update(t=op["t"], rp=op["rp"])
+                if p["rp"] and p["t"] != 1:
+                    continue
+            if p["cs"] is not None and len(p["cs"]) != p["k"]:
+                continue
+            ctrl, anc, tg = layout(kind, p)
+            nq = len(ctrl) + len(anc) + len(tg)
+            if nq <= DENSE_OP_MAX + 1:
+                jobs.append(("operator", (kind, p)))
+            elif nq <= DENSE_SV_MAX:
+                jobs.append(("statevector", (kind, p, ctx.rng.getrandbits(31))))
+            else:
+                for mism, nsup in ((0, 0), (0, 3), (1, 2), (2, 1)):
+                    idx, amp, desc = make_sparse_input(ctx.rng, kind, p, mism, nsup)
+                    jobs.append(("sparse", (kind, p, idx, amp, desc)))
+        run_jobs(ctx, jobs)
+        if not ctx.failures:
+            run(ctx, scale=1, with_majority=False)
+    if MAJ is not None and (theirs or not hints) and not ctx.failures:
+        MAJ.search(ctx, theirs)
 
 
 def replay(ctx, payload):
     r = payload["replay"]
     if "kind" not in r or "method" not in r:
         if MAJ is not None:
-            return MAJ.replay(ctx, payload)
+            return MAJ.replay(ctx, r)
         raise RuntimeError("unknown replay payload")
     kind, p, m = r["kind"], r["params"], r["method"]
+    if m == "assumption":
+        assumptions(ctx)
+        return
+    if m == "construct":
+        circ, gates, gerr = gate_list(kind, p)
+        if gerr is not None and gerr != "reject":
+            ctx.fail(case_key(kind, p, "construct"), "qclib raised while building the definition: " + gerr, r)
+        else:
+            ctx.ok(case_key(kind, p, "construct"))
+        return
     if m == "operator":
         jobs = [("operator", (kind, p))]
     elif m == "statevector":
